@@ -207,7 +207,29 @@ func init() {
 			case 1: // Equal on related pairs
 				a := c06Shape(c, 2)
 				var b orb.Geometry
-				switch c.rng.Intn(6) {
+				switch c.rng.Intn(7) {
+				case 6: // collections with a nil member: against the same collection with a geometry in that place, with the
+					// nil in another place, and against a copy (nested one level down too)
+					m1, m2 := c06Shape(c, 1), c06Shape(c, 1)
+					colA := orb.Collection{nil, m1}
+					var colB orb.Collection
+					switch c.rng.Intn(4) {
+					case 0:
+						colB = orb.Collection{m2, m1}
+					case 1:
+						colB = orb.Collection{m1, nil}
+					case 2:
+						colB = orb.Collection{nil, m1}
+					default:
+						colB = orb.Collection{nil}
+					}
+					a, b = colA, colB
+					if c.rng.Intn(3) == 0 {
+						a, b = orb.Collection{colA, m2}, orb.Collection{colB, m2}
+					}
+					if c.rng.Intn(2) == 0 {
+						a, b = b, a
+					}
 				case 5: // a box and the ring / polygon that has exactly that box (same GeoJSON type word, different kinds), either order
 					bb := orb.MultiPoint{{float64(c.rng.Intn(5)), float64(c.rng.Intn(5))}, {float64(5 + c.rng.Intn(4)), float64(5 + c.rng.Intn(4))}}.Bound()
 					if a != nil && c.rng.Intn(2) == 0 {
